@@ -6,6 +6,8 @@
 #if defined __has_include && __has_include(<version>)
 #include <version>
 #endif
+#include <exception>
+#include <utility>
 #include <variant>
 #include "bitserializer/serialization_detail/serialization_options.h"
 #include "bitserializer/serialization_detail/errors_handling.h"
@@ -44,8 +46,22 @@ namespace BitSerializer
 
 		void OnFinishSerialization()
 		{
+			if (mDeferredError) {
+				std::rethrow_exception(std::exchange(mDeferredError, nullptr));
+			}
 			if (!mErrorsMap.empty()) {
 				throw ValidationException(std::move(mErrorsMap));
+			}
+		}
+
+		/// <summary>
+		/// Keeps an error which occurred in the destructor of an archive scope (destructors must not throw),
+		/// it will be thrown at the end of serialization. Ignored when another exception is already being handled.
+		/// </summary>
+		void SetDeferredError(std::exception_ptr error) noexcept
+		{
+			if (!mDeferredError && std::uncaught_exceptions() == 0) {
+				mDeferredError = std::move(error);
 			}
 		}
 
@@ -69,6 +85,7 @@ namespace BitSerializer
 
 		StringsVariant mStringValueBuffer;
 		ValidationMap mErrorsMap;
+		std::exception_ptr mDeferredError;
 		const SerializationOptions& mSerializationOptions;
 	};
 }
